@@ -38,6 +38,7 @@ SELFTEST = [
     {"mutation": "on_close: SendClosed arm inserts under a fresh key (id.next())", "caught_by": "substreams/new-key insert only below max_substreams (on_close) + floor:new-key inserts"},
     {"mutation": "poll_read_stream: fast path returns buf[0].clone() without removing it", "caught_by": "block/unblocking is always followed by freeing space in that substream's buffer"},
     {"mutation": "(pre-fix code) drop_stream does not clear blocking_stream when the dropped substream is the blocking one", "caught_by": "block/releasing a substream's entry also releases the block it may hold (drop_stream)"},
+    {"mutation": "(neutral, must stay silent) /verif/neutral/mux: 03/04/05.diff (renames, hoisted lets, early return with mirrored `<=`), renamed buffer() parameters, `!(len < max)` in on_open", "caught_by": "silent"},
 ]
 
 
@@ -56,6 +57,7 @@ MAXS = r"^self\.config\.max_substreams$"
 
 
 def _check(ctx, prog):
+    lib_mux.canon_io(prog)
     # ------------------------------------------------------------------ who inserts into `substreams`
     ins = []
     for b in prog.bodies(MP):
@@ -74,8 +76,9 @@ def _check(ctx, prog):
         newkey.append((b, s, key, val))
         lib.limit_guard(ctx, "substreams", "new-key insert only below max_substreams (%s)" % fn, s, LEN, MAXS, "substreams.len() < max_substreams for key `%s`" % key[-50:])
         v = render(val)
+        bufx = dict(val[4]).get("buf") if val[0] == "agg" and val[3] == "Open" else None
         ctx.ob("substreams", "new substream starts Open with an empty buffer (%s)" % fn,
-               v == "libp2p_mplex::io::SubstreamState::Open{buf: <smallvec::SmallVec as std::default::Default>::default()}", s.loc(), v[-110:])
+               bufx is not None and bufx[0] == "call" and not bufx[2] and re.search(r"::(default|new)$", mir.strip_generics(bufx[1])) is not None, s.loc(), v[-110:])
         # the limit is tested against the live map once per insert: no second insert between the test and this one
         good, _ = lib.strict_limit_edges(b, LEN, MAXS)
         for (tb, tt) in good:
@@ -89,7 +92,7 @@ def _check(ctx, prog):
             if s.si is None:
                 continue
             r = render(b.site_expr(s))
-            ctx.ob("substreams", "whole-map writes only clear it (%s)" % b.short.split("::")[-1], r == "<std::collections::HashMap as std::default::Default>::default()", s.loc(), r[:100])
+            ctx.ob("substreams", "whole-map writes only clear it (%s)" % b.short.split("::")[-1], re.match(r"^(<std::collections::HashMap as std::default::Default>::default|std::collections::HashMap::new|std::collections::HashMap::default|std::collections::HashMap::with_hasher)\(", r) is not None, s.loc(), r[:100])
 
     # ------------------------------------------------------------------ on_open
     oo = lib_mux.io_body(ctx, "on_open")
@@ -107,7 +110,7 @@ def _check(ctx, prog):
         ctx.ob("on_open", "over the limit: nothing is inserted and no id is returned", not (reach & (set(lib.bbs([s for s, _, _ in oins])) | set(ok_some))), "%s:%d" % (oo.file, oo.line),
                "insert / Ok(Some) reachable from the at-limit edge: %s" % sorted(reach & (set(lib.bbs([s for s, _, _ in oins])) | set(ok_some))))
         ends = [b for b in z if b in reach]
-        ctx.ob("on_open", "over the limit: the only outcomes are Ok(None) or the pending-frames error", all(z[b] == "std::result::Result::Ok{0: std::option::Option::None{}}" or "from_residual" in z[b] for b in ends) and bool(ends),
+        ctx.ob("on_open", "over the limit: the only outcomes are Ok(None) or the pending-frames error", all(z[b] == "std::result::Result::Ok{0: std::option::Option::None{}}" or lib_mux.is_err_result(z[b]) for b in ends) and bool(ends),
                "%s:%d" % (oo.file, oo.line), str(sorted({z[b][:60] for b in ends})))
     for s in resets:
         r = render(oo.site_expr(s)[2][1])
@@ -122,7 +125,7 @@ def _check(ctx, prog):
     dup = lib.arm_entry(oo, r"^std::collections::HashMap::contains_key\(self\.substreams, ", "true")
     for _, t in dup:
         ends = [b for b in z if b in oo.reachable([t])]
-        ctx.ob("on_open", "duplicate Open is a connection error", bool(ends) and all(z[b] == "call:libp2p_mplex::io::Multiplexed::on_error" for b in ends), "%s:%d" % (oo.file, oo.line), str([z[b] for b in ends]))
+        ctx.ob("on_open", "duplicate Open is a connection error", bool(ends) and all(lib_mux.is_err_result(z[b]) for b in ends), "%s:%d" % (oo.file, oo.line), str([z[b] for b in ends]))
 
     # ------------------------------------------------------------------ poll_open_stream at the limit
     po = lib_mux.io_body(ctx, "poll_open_stream")
@@ -141,25 +144,31 @@ def _check(ctx, prog):
     # ------------------------------------------------------------------ buffer()
     bf = lib_mux.io_body(ctx, "buffer")
     zb = lib_mux.zero_assigns(bf)
-    BUF = "libp2p_mplex::io::SubstreamState::recv_buf_open(std::collections::HashMap::get_mut(self.substreams, id)@Some.0)@Some.0"
+    BUF0 = "libp2p_mplex::io::SubstreamState::recv_buf_open(std::collections::HashMap::get_mut(self.substreams, id)@Some.0)@Some.0"
     pushes = bf.call_sites(r"SmallVec::push$|SmallVec::insert$|SmallVec::extend")
     ctx.floor("buffer", "push into a receive buffer", pushes, 1, exact=True)
+    BUF = render(bf.site_expr(pushes[0])[2][0]) if pushes else BUF0
     wb = "%s:%d" % (bf.file, bf.line)
-    tests = [(bi, cond) for bi in sorted(bf.live) for cond, labs in [bf.switch_info(bi) or (None, None)] if cond is not None and cond[0] == "bin" and cond[1] in ("Gt", "Ge")
-             and render(cond[2]) == "smallvec::SmallVec::len(%s)" % BUF]
-    ctx.floor("buffer", "`buf.len() > ...` test", tests, 1, exact=True)
+    # the overflow test, in any polarity / operand order / one helper level: relation of `pushed_buf.len()` to max_buffer_len
+    trel = lib_mux.rel_edges(bf, lambda e: render(e) == "smallvec::SmallVec::len(%s)" % BUF, lambda e: render(e) == "self.config.max_buffer_len", prog)
+    after_push = bf.reachable([x for p_ in pushes for x in bf.succ[p_.bb]])
+    trel = [x for x in trel if x["switch"] in after_push]          # (a debug assertion before the push tests the same quantity)
+    tests = sorted({x["switch"] for x in trel})
+    ctx.floor("buffer", "`buf.len() > max_buffer_len` test", tests, 1, exact=True)
+    over_e = lib_mux.edges_with(trel, {"gt", "ge"})
+    rels = sorted({x["rel"] for x in trel})
     ok_ret = [b for b, r in zb.items() if r == "std::result::Result::Ok{0: tuple{}}"]
     for s in pushes:
         e = bf.site_expr(s)
-        ctx.ob("buffer", "frame is pushed into the addressed substream's open receive buffer", render(e[2][0]) == BUF and render(e[2][1]) == "data", s.loc(), "%s <- %s" % (render(e[2][0])[-70:], render(e[2][1])))
+        ctx.ob("buffer", "frame is pushed into the addressed substream's open receive buffer", render(e[2][0]) == BUF0 and render(e[2][1]) == "data", s.loc(), "%s <- %s" % (render(e[2][0])[-70:], render(e[2][1])))
         if tests:
-            tbb, cond = tests[0]
-            ctx.ob("buffer", "overflow test is `len > max_buffer_len` on the pushed buffer", render(cond[3]) == "self.config.max_buffer_len", mir.Site(bf, tbb).loc(), "%s(len, %s)" % (cond[1], render(cond[3])))
+            tbb = tests[0]
+            ctx.ob("buffer", "overflow test is `len > max_buffer_len` on the pushed buffer", bool(over_e) and set(rels) in ({"gt", "le"}, {"ge", "lt"}), mir.Site(bf, tbb).loc(), "relations on the edges of the test: %s" % rels)
             ctx.passes("buffer", "every push is followed by the overflow test", bf, bf.succ[s.bb], bf.return_blocks(), [tbb], "`buf.len() > max_buffer_len` after push", s.loc())
             ctx.ob("buffer", "the test comes after the push", s.bb in bf.reachable([0], blocked_nodes=[tbb]) and tbb in bf.reachable(bf.succ[s.bb]), s.loc(), "push precedes the test")
     if tests:
-        tbb, cond = tests[0]
-        over = [t for t, ls in bf.switch_info(tbb)[1].items() if "true" in ls]
+        tbb = tests[0]
+        over = sorted({t for (_, t) in over_e})
         msw = [bi for bi in sorted(bf.live) if bf.switch_info(bi) and render(bf.switch_info(bi)[0]) == "discr(self.config.max_buffer_behaviour)"]
         ctx.floor("buffer", "MaxBufferBehaviour match", msw, 1, exact=True)
         ok = bool(over) and bool(msw) and bf.must_pass_nodes(over, bf.return_blocks(), msw)
@@ -176,7 +185,7 @@ def _check(ctx, prog):
             for s in bs:
                 r = render(bf.site_expr(s))
                 ctx.ob("buffer", "the blocking stream is the overflowing one", r == "std::option::Option::Some{0: id}", s.loc(), r)
-                ctx.ob("buffer", "blocking only on overflow under Block", bf.must_pass_edges(s.bb, {(tbb, t) for t in over}) and bf.must_pass_edges(s.bb, {(msw[0], arms.get("Block"))}), s.loc(), "dominated by the overflow edge and the Block arm")
+                ctx.ob("buffer", "blocking only on overflow under Block", bf.must_pass_edges(s.bb, over_e) and bf.must_pass_edges(s.bb, {(msw[0], arms.get("Block"))}), s.loc(), "dominated by the overflow edge and the Block arm")
             if "ResetStream" in arms:
                 rins = lib_mux.substream_inserts(bf)
                 rfr = [s for s in bf.call_sites(r"VecDeque::push_front$") if render(bf.site_expr(s)[2][0]) == "self.pending_frames"]
@@ -190,8 +199,8 @@ def _check(ctx, prog):
                     r = render(bf.site_expr(s)[2][1])
                     ctx.ob("buffer", "ResetStream: the Reset frame names the overflowing substream", r == "libp2p_mplex::codec::Frame::Reset{stream_id: id}", s.loc(), r)
     # data dropped only on the unknown / closed edges
-    skip = bf.guard_edges(lambda c, r, l: l == "None" and r in ("discr(std::collections::HashMap::get_mut(self.substreams, id))",
-                                                               "discr(libp2p_mplex::io::SubstreamState::recv_buf_open(std::collections::HashMap::get_mut(self.substreams, id)@Some.0))"))
+    skip = (lib_mux.none_edges(bf, "std::collections::HashMap::get_mut(self.substreams, id)") |
+            lib_mux.none_edges(bf, "libp2p_mplex::io::SubstreamState::recv_buf_open(std::collections::HashMap::get_mut(self.substreams, id)@Some.0)"))
     ctx.floor("no-loss", "unknown-substream / closed-for-reading edges in buffer", sorted(skip), 2)
     for b in ok_ret:
         r = bf.reachable([0], blocked_nodes=lib.bbs(pushes), blocked_edges=skip)
@@ -215,8 +224,10 @@ def _check(ctx, prog):
     nxt = prf.call_sites(r"StreamExt::poll_next_unpin$|Stream>::poll_next$|StreamExt::poll_next$")
     ctx.floor("block", "socket frame read", nxt, 1)
     for s in nxt:
-        ctx.guarded("block", "socket polled only while no stream blocks", s, lambda c, r, l: l == "None" and r == "discr(self.blocking_stream)", "blocking_stream is None")
-    for _, t in lib.arm_entry(prf, r"^discr\(self\.blocking_stream\)$", "Some"):
+        ne = lib_mux.none_edges(prf, "self.blocking_stream")
+        ok = bool(ne) and prf.must_pass_edges(s.bb, ne)
+        ctx.ob("block", "socket polled only while no stream blocks", ok, s.loc(), ("guard present on all paths: " if ok else "a path reaches this site without the guard: ") + "blocking_stream is None")
+    for _, t in sorted(lib_mux.some_edges(prf, "self.blocking_stream")):
         ends = sorted({zf[b] for b in zf if b in prf.reachable([t])})
         ctx.ob("block", "while a stream blocks poll_read_frame returns Pending", ends == ["std::task::Poll::Pending{}"], "%s:%d" % (prf.file, prf.line), str(ends))
     # all writes of blocking_stream in the crate
@@ -236,9 +247,9 @@ def _check(ctx, prog):
         keys = set()
 
         def pred(c, rr, l, keys=keys):
-            m = re.match(r"^<std::option::Option as std::cmp::PartialEq>::eq\(self\.blocking_stream, std::option::Option::Some\{0: (\w+)\}\)$", rr)
-            if m and l == "true":
-                keys.add(m.group(1))
+            k = lib_mux.opt_eq_key(rr, l, "self.blocking_stream")
+            if k is not None:
+                keys.add(k)
                 return True
             return False
         edges = b.guard_edges(pred)
@@ -264,12 +275,13 @@ def _check(ctx, prog):
     for b, x in releasing:
         ctx.use(b)
         key = render(b.site_expr(x)[2][1])
-        tests = [bi for bi in sorted(b.live) if b.switch_info(bi) and render(b.switch_info(bi)[0]) == "<std::option::Option as std::cmp::PartialEq>::eq(self.blocking_stream, std::option::Option::Some{0: %s})" % key]
+        tests = [bi for bi in sorted(b.live) if b.switch_info(bi) and any(lib_mux.opt_eq_key(render(b.switch_info(bi)[0]), lab, "self.blocking_stream") == key for lab in ("true", "false"))]
         ok = bool(tests) and (b.must_pass_nodes([0], [x.bb], tests) or b.must_pass_nodes(b.succ[x.bb], b.return_blocks(), tests))
         clr = [w for w in b.field_write_sites("blocking_stream") if w.si is not None and render(b.site_expr(w)) == "std::option::Option::None{}"]
         if ok:
-            tedge = [t for t, ls in b.switch_info(tests[0])[1].items() if "true" in ls]
-            fedge = [t for t, ls in b.switch_info(tests[0])[1].items() if "false" in ls]
+            cr = render(b.switch_info(tests[0])[0])
+            tedge = [t for t, ls in b.switch_info(tests[0])[1].items() if any(lib_mux.opt_eq_key(cr, l, "self.blocking_stream") == key for l in ls)]
+            fedge = [t for t, ls in b.switch_info(tests[0])[1].items() if t not in tedge]
             # on the true edge the block is cleared before control re-joins the other edge / returns
             join = b.reachable(fedge)
             ok = bool(clr) and all(c.bb in b.reachable(tedge) for c in clr[:1]) and b.must_pass_nodes(tedge, [j for j in join if j in b.reachable(tedge)][:1] or b.return_blocks(), lib.bbs(clr))
